@@ -416,7 +416,13 @@ Definition cop (P : params) (g : cfg) (s : csys) (t : nat) (ch : nat) : option (
     end
   | WYield => Some (go WRelock, LEv (Ev OYield 0%nat MoNone 0 0 0))
   | WFwait =>
-    if Z.eqb (c_lock s) 1 then Some (go WBlocked, LEv (Ev OFwait cell_wlock MoNone 1 1 1))
+    (* muggle_sync_wait(synclock, LOCK): the value still matches: the wait may be interrupted
+       (choice 2: returns -1 / EINTR) or end by a spurious wake-up (choice 3: returns 0) instead of
+       sleeping; muggle_synclock_lock ignores the result and retries the compare-exchange *)
+    if Z.eqb (c_lock s) 1 then
+      if Nat.eqb ch 2 then Some (go WRelock, LEv (Ev OFwait cell_wlock MoNone 1 1 2))
+      else if Nat.eqb ch 3 then Some (go WRelock, LEv (Ev OFwait cell_wlock MoNone 1 1 3))
+      else Some (go WBlocked, LEv (Ev OFwait cell_wlock MoNone 1 1 1))
     else Some (go WRelock, LEv (Ev OFwait cell_wlock MoNone 1 (c_lock s) 0))
   | WLoadR =>
     let mo := match g_rm g with RSync => mo_ws_load P | _ => mo_wb_load P end in
@@ -482,7 +488,12 @@ Definition cop (P : params) (g : cfg) (s : csys) (t : nat) (ch : nat) : option (
     Some (put_thr t (set_pc x RRet) (w_rcur (t_r x) (w_R (S (c_R s)) (w_rst (rel_stamp mo (t_view x)) s))),
           LEv (Ev OStore cell_rcur mo (t_r x) 0 0))
   | RWait =>
-    if Z.eqb (c_wcur s) (t_w x) then Some (go RBlocked, LEv (Ev OFwait cell_wcur MoNone (t_w x) (c_wcur s) 1))
+    (* muggle_sync_wait(&write_cursor, wpos): interrupted (choice 2) or spuriously woken (choice 3)
+       instead of sleeping; muggle_channel_read_sync ignores the result and loads the cursor again *)
+    if Z.eqb (c_wcur s) (t_w x) then
+      if Nat.eqb ch 2 then Some (go RLoop, LEv (Ev OFwait cell_wcur MoNone (t_w x) (c_wcur s) 2))
+      else if Nat.eqb ch 3 then Some (go RLoop, LEv (Ev OFwait cell_wcur MoNone (t_w x) (c_wcur s) 3))
+      else Some (go RBlocked, LEv (Ev OFwait cell_wcur MoNone (t_w x) (c_wcur s) 1))
     else Some (go RLoop, LEv (Ev OFwait cell_wcur MoNone (t_w x) (c_wcur s) 0))
   | RMLock =>
     if Z.eqb (c_rmx s) 0 then
